@@ -47,3 +47,17 @@ Definition ex_hist_seeded : list op := [
   OJoin 1 0 (-1); OAppend 1 3%N 1 202%N;            (* ...004, after both heads *)
   OJoin 2 1 (-1); OAppend 2 4%N 2 302%N;            (* ...005 *)
   OJoin 0 2 (-1) ].
+
+(* logs re-opened over selections of another replica's entries (NewLog with LogOptions.Entries): replica 1
+   is opened over the two newest entries of replica 0's chain, given newest first - a causally open log
+   whose clock starts at 0 although it holds entries of time 2 and 3 -, is appended to (time 4, on top
+   of 103), merges replica 0 and is merged back with a bound; replica 2 is opened over everything *)
+Definition ex_hist_open : list op := [
+  ONew 1%N 10%N SLww [] 0;
+  OAppend 0 1%N 1 101%N; OAppend 0 2%N 1 102%N; OAppend 0 3%N 1 103%N;
+  OOpen 0 [103; 102; 999]%N 20%N SLww [];
+  OAppend 1 4%N 2 201%N;
+  OOpen 0 [101; 102; 103; 102]%N 30%N SLww [];
+  OJoin 1 0 (-1);
+  OJoin 0 1 2;
+  OAppend 2 5%N 1 301%N ].
